@@ -347,6 +347,7 @@ pub fn grammar_leaf_goals(terms: &[T]) -> Vec<G> {
     }
     out.push(G::Print(vec![atom("%s and %s"), x(), atom("b")]));
     out.push(G::Not(Box::new(G::Unify(x(), atom("a")))));
+    out.push(G::Time(Box::new(call("p", vec![x()]))));
     out.push(G::Not(Box::new(G::Cmp(Rel::Lt, x(), T::Int(1)))));
     out
 }
@@ -419,6 +420,7 @@ fn goal_kind(g: &G) -> String {
         G::And(_) => "and".into(),
         G::Or(_) => "or".into(),
         G::Not(_) => "not".into(),
+        G::Time(_) => "time".into(),
         G::Cut => "cut".into(),
         G::Fail => "fail".into(),
         G::Nl => "nl".into(),
